@@ -163,3 +163,61 @@ def _mk_between_ym(mask: int) -> None:
 
 for _mask in (1, 2, 3):
     _mk_between_ym(_mask)
+
+
+# ------------------------------------------------------------------------------------------------- Period.between(LocalDateTime, LocalDateTime)
+from .gens import LocalDateTimeG  # noqa: E402
+
+_UNIT_BITS = (("YEARS", 1), ("MONTHS", 2), ("WEEKS", 4), ("DAYS", 8), ("HOURS", 16), ("MINUTES", 32), ("SECONDS", 64), ("MILLISECONDS", 128), ("TICKS", 256), ("NANOSECONDS", 512))
+_UNIT_NS = {16: V.NPH, 32: V.NPM, 64: V.NPS, 128: V.NPMS, 256: V.NPT, 512: 1}
+
+
+def _mk_between_ldt(mask: int) -> None:
+    names = "+".join(n for n, k in _UNIT_BITS if mask & k)
+
+    @contract(H + "between_date_times", "C09", name=f"Period.between(LocalDateTime, LocalDateTime, {names}): only requested units, one sign, exact/maximal in fixed-length units")
+    def _(c):
+        c.ghost("cal", AbsCalG()).arg("start", LocalDateTimeG()).arg("end", LocalDateTimeG()).arg("units", Const(lambda: __import__("pyoda_time").PeriodUnits(mask)))
+        c.timeout_s = 120
+        c.max_paths = 40000
+        # interface fact CAL-RANGE (a ground obligation per calculator class, contracts/c01_calendars.py): every calendar's days lie
+        # inside the range of local instants
+        c.requires(lambda a: And(CA.soy(a.cal.cid, a.cal.min_year) >= V.INSTANT_MIN_DAYS, CA.soy(a.cal.cid, a.cal.max_year + 1) - 1 <= V.INSTANT_MAX_DAYS))
+
+        def setup(eng):
+            from specs import cal_abs, field_models
+
+            cal_abs.install(eng)
+            field_models.install(eng)
+
+        c.setup = setup
+
+        def local_ns(a, x):
+            return ld_dse(a, V.ldt_date(x)) * V.NPD + V.lt_nanos(V.ldt_time(x))
+
+        def post(a, r):
+            comps = dict(zip((k for _, k in _UNIT_BITS), r))
+            s, e = local_ns(a, a.start), local_ns(a, a.end)
+            diff = e - s
+            conj = [comps[k] == 0 for _, k in _UNIT_BITS if not mask & k]
+            conj += [Implies(diff >= 0, comps[k] >= 0) for _, k in _UNIT_BITS if mask & k]
+            conj += [Implies(diff <= 0, comps[k] <= 0) for _, k in _UNIT_BITS if mask & k]
+            fixed = [k for _, k in _UNIT_BITS if mask & k and k >= 4]
+            if not mask & 3 and fixed:
+                # only fixed-length units: the period's total length is the difference truncated to the smallest unit asked for
+                total = 0
+                for k in fixed:
+                    total = total + comps[k] * ({4: 7 * V.NPD, 8: V.NPD} | _UNIT_NS)[k]
+                smallest = min(({4: 7 * V.NPD, 8: V.NPD} | _UNIT_NS)[k] for k in fixed)
+                conj.append(total == trunc_div(diff, smallest) * smallest)
+                # canonical carry: every unit but the largest stays below the next larger requested unit
+                sizes = sorted((({4: 7 * V.NPD, 8: V.NPD} | _UNIT_NS)[k], k) for k in fixed)
+                for (sz, k), (sz2, _k2) in zip(sizes, sizes[1:]):
+                    conj.append(And(comps[k] * sz < sz2, comps[k] * sz > -sz2))
+            return And(*conj)
+
+        c.returns(post)
+
+
+for _mask in (8, 4, 16, 512, 8 | 16, 8 | 512, 4 | 8 | 64, 1, 2, 1 | 2 | 8, 1 | 2 | 8 | 16 | 512):
+    _mk_between_ldt(_mask)
